@@ -255,7 +255,7 @@ def u_balance(I):
     rq = Obj(rqcls, {'transformations': [], 'reactantquery': {'r1': mq}, 'atom_names': list(names)}, 'param')
     rd = Obj(cls, {'tree': None, 'RINGgroups': None, 'atom_names': list(names), 'atom_belonging_mol': ['r1'] * 3, 'electronbalance': list(e)}, 'param')
     edits = ['BondForm', 'BondForm-double', 'BondBreak', 'BondBreak-double', 'BondIncrease', 'BondDecrease', 'RadicalIncrease', 'RadicalDecrease',
-             'ChargeIncrease', 'ChargeDecrease', 'RadicalModify', 'BondForm-undefined', 'BondBreak-unbonded']
+             'ChargeIncrease', 'ChargeDecrease', 'RadicalModify', 'BondForm-undefined', 'BondBreak-unbonded', 'BondBreak-untyped-any-pattern-bond']
     ed = edits[ctx.choose([True] * len(edits), 'edit')]
     L = lambda s: T('AtomLabel', s)
     k = I.fresh('new_radicals', 'int')
@@ -263,8 +263,10 @@ def u_balance(I):
     trees = {'BondForm': [L('c2'), L('h1')], 'BondForm-double': [T('BondType', 'double'), L('c2'), L('h1')], 'BondBreak': [L('c1'), L('h1')],
              'BondBreak-double': [T('BondType', 'double'), L('c1'), L('c2')], 'BondIncrease': [L('c1'), L('c2')], 'BondDecrease': [L('c1'), L('c2')],
              'RadicalIncrease': [L('c2')], 'RadicalDecrease': [L('c2')], 'ChargeIncrease': [L('c2')], 'ChargeDecrease': [L('c2')],
-             'RadicalModify': [L('c2'), k], 'BondForm-undefined': [L('c2'), L('zz')], 'BondBreak-unbonded': [L('c2'), L('h1')]}
-    fn = {'BondForm-double': 'BondForm', 'BondBreak-double': 'BondBreak', 'BondForm-undefined': 'BondForm', 'BondBreak-unbonded': 'BondBreak'}.get(ed, ed)
+             'RadicalModify': [L('c2'), k], 'BondForm-undefined': [L('c2'), L('zz')], 'BondBreak-unbonded': [L('c2'), L('h1')],
+             'BondBreak-untyped-any-pattern-bond': [L('c1'), L('c2')]}
+    fn = {'BondForm-double': 'BondForm', 'BondBreak-double': 'BondBreak', 'BondForm-undefined': 'BondForm', 'BondBreak-unbonded': 'BondBreak',
+          'BondBreak-untyped-any-pattern-bond': 'BondBreak'}.get(ed, ed)
     if ed == 'BondBreak-double':
         ctx.assume(qbond_code == BOND_CODES['DOUBLE'])
     out = run_target(I, RQR, 'ReactionQueryReader.Read' + fn, [trees[ed], rq], self_obj=rd)
@@ -272,8 +274,9 @@ def u_balance(I):
     # set radical count to k on an atom declared with d radicals -> -(k - d)
     delta = {'BondForm': {1: -1, 2: -1}, 'BondForm-double': {1: -2, 2: -2}, 'BondBreak': {0: 1, 2: 1}, 'BondBreak-double': {0: 2, 1: 2},
              'BondIncrease': {0: -1, 1: -1}, 'BondDecrease': {0: 1, 1: 1}, 'RadicalIncrease': {1: -1}, 'RadicalDecrease': {1: 1},
+             'BondBreak-untyped-any-pattern-bond': {0: 1, 1: 1},
              'ChargeIncrease': {1: -1}, 'ChargeDecrease': {1: 1}, 'RadicalModify': {1: -(k - declared[1])}}
-    tclass = {'BondForm-double': 'BondForm', 'BondBreak-double': 'BondBreak', 'RadicalModify': None}.get(ed, ed)
+    tclass = {'BondForm-double': 'BondForm', 'BondBreak-double': 'BondBreak', 'RadicalModify': None, 'BondBreak-untyped-any-pattern-bond': 'BondBreak'}.get(ed, ed)
     if ed in ('BondForm-undefined', 'BondBreak-unbonded'):
         check_outcome(I, out, raises={'*': z3.BoolVal(True)}, returns=lambda r: [('an undefined label / a bond that is not in the pattern is rejected', z3.BoolVal(False))])
         ctx.oblige('a rejected edit leaves the balance untouched', z3.And([z3_of(rd.fields['electronbalance'][i]) == e[i] for i in range(3)]))
@@ -295,6 +298,10 @@ def u_balance(I):
             ps.append(('"set radical count" changes the radical count of that atom only (no declared charge edit)',
                        z3.BoolVal(tr[0].cls.name in ('RadicalModify',) or (tr[0].cls.name == 'AtomTypeModify' and False))))
         return ps
+    if ed == 'BondBreak-untyped-any-pattern-bond':
+        # an untyped 'break bond' is the break of a SINGLE bond (one electron back to each end): over a pattern bond of any other kind it is refused
+        check_outcome(I, out, raises={'*': qbond_code != BOND_CODES['SINGLE']}, returns=posts, site='ReadBondBreak')
+        return {'inputs': {}}
     check_outcome(I, out, raises={}, returns=posts, site='Read' + fn)
     return {'inputs': {}}
 
